@@ -438,11 +438,11 @@ PROPS["C07"] = dict(
 )
 
 PROPS["C12"] = dict(
-    modules=["common", "hdrs", "c03", "c02", "c05", "c13", "c14", "c16", "c18", "c07", "c12"],
+    modules=["common", "hdrs", "c03", "c02", "c05", "c13", "c14", "c16", "c18", "c07", "c01", "c12"],
     contracts=["parse_range", "wsgi.FileResponse.__call__", "asgi.FileResponse.__call__", "if_none_match", "if_modified_since",
                "check_path_is_file", "URL._build_url", "request.cookies", "request.content_length", "request.date",
                "wsgi.Request.json", "asgi.Request.json", "wsgi.Request.form", "asgi.Request.form",
-               "wsgi.HTTPConnection.url", "asgi.HTTPConnection.url"],
+               "wsgi.HTTPConnection.url", "asgi.HTTPConnection.url", "MultipartDecoder.next_event[PART]"],
     refute={"quick": [2], "thorough": [1, 2, 3]},
     native="c12",
     level="other",
@@ -473,7 +473,8 @@ PROPS["C12"] = dict(
 
 PROPS["C01"] = dict(
     modules=["common", "c01"],
-    contracts=["multipart.twins", "MultipartDecoder.last_newline", "MultipartDecoder.next_event[DATA]", "parse_stream"],
+    contracts=["multipart.twins", "MultipartDecoder.last_newline", "MultipartDecoder.next_event[DATA]",
+               "MultipartDecoder.next_event[PART]", "parse_stream"],
     no_refute=["multipart.twins"],
     refute={"quick": [2], "thorough": [1, 2]},
     native="c01",
